@@ -59,6 +59,7 @@ class C09(Spec):
     PROOF_MODULES = ['PsiProofs.C09']
     DESIGN_REF = 'DESIGN.md §6 C09'
     PARALLEL = 16
+    CASE_TIMEOUT = 60       # CPU seconds per case (the largest legitimate cases take a few seconds)
     TRUST = [
         'int(round(x*fs)) conversions are performed by the harness in Python with the identical expression; the model '
         'receives the integers',
@@ -155,6 +156,30 @@ class C09(Spec):
                         # nothing about the finite stimulus
                         tree['in'].update(rolloff=1, pass_att=1, stop_att=80)
                 yield {'kind': 'finite', 'cls': top, 'tree': tree, 'chunks': history(tree, S.total_of(tree)), 'tag': 'var'}
+        # item 9: optional constructor arguments left out (start_time, transform, window, normalization, carrier options):
+        # the contract is the one of the documented defaults
+        for top in TOPS + ['fixedlike']:
+            for _ in range(20 if quick else 100):
+                fs = rng.choice(S.FS_LIST)
+                tree = G.defaults_tree(rng, finite_tree(rng, fs, top))
+                yield {'kind': 'finite', 'cls': top, 'tree': tree, 'chunks': history(tree, S.total_of(tree)), 'tag': 'dflt'}
+        # item 7 (siblings): a stimulus that differs in exactly one optional argument (a transform callable, the window
+        # name, start, duration) was built and drawn with the same chunking just before: the contract of the second one
+        # is untouched (a module-level memo whose key forgets an argument would hand it the other's fragments)
+        for top in ('env', 'env', 'env', 'cos2', 'gate'):
+            for i in range(12 if quick else 80):
+                fs = rng.choice(S.FS_LIST)
+                tree = finite_tree(rng, fs, top)
+                if rng.random() < 0.7:
+                    tree['in'] = dict(ONES)
+                if top == 'env' and tree['window'] == 'cos2factory':
+                    tree['window'] = 'cosine-squared'
+                sib = G.one_param_twin(rng, tree, key=['transform', 'transform', 'window', 'start', 'dur'][i % 5]
+                                       if top == 'env' else None)
+                if sib is None:
+                    continue
+                yield {'kind': 'finite', 'cls': top, 'tree': tree, 'chunks': history(tree, S.total_of(tree)), 'tag': 'sib',
+                       'sib': sib}
         # items 5, 6: reset and re-use (before any draw, mid-way, after completion, twice), get_samples_remaining(),
         # NumPy integer chunk sizes, the caller overwriting the chunks it received
         for top in TOPS + ['fixedlike']:
@@ -242,6 +267,17 @@ class C09(Spec):
         f = None
         hs = self.histories(c)
         conv = G.NTYPES.get(c.get('ntype'), int)
+        if c.get('sib') and c['kind'] != 'exh':
+            # a sibling stimulus (one optional argument changed) is built and drawn along the very same chunking first
+            try:
+                a = S.build_real(c['sib'])
+                for i, h in enumerate(hs):
+                    if i:
+                        a.reset()
+                    for n in h:
+                        a.next(conv(n))
+            except self.ERRS:
+                pass
         for i, h in enumerate(hs):
             if c['kind'] == 'exh' or i == 0:
                 try:
@@ -284,7 +320,7 @@ class C09(Spec):
         mout = self.model_out(c, ml)
         plan = S.Plan(c['tree'])
         plan.hint = max(sum(h) for h in self.histories(c))
-        tol = S.FIR_TOL if S.is_fir(c['tree']) else 0.0
+        tol = S.tree_tol(c['tree'])
         out, j = [], 0
         for h, rec in zip(self.histories(c), res):
             if rec and rec[0] == 'err':
@@ -389,6 +425,7 @@ class C09(Spec):
         n = sum(c['chunks'])
         for _ in range(30):
             d = copy.deepcopy(c)
+            d.pop('gsr', None)      # (the count get_samples_remaining() is expected to deliver belongs to the old chunks)
             d['chunks'] = S.boundary_chunks(rng, max(n + rng.randint(0, 3), 1), S.marks_of(c['tree']) + [n])
             yield d
 
@@ -399,7 +436,7 @@ class C09(Spec):
             return
         ch = c['chunks']
         ones = {'t': 'silence', 'fill': 1}
-        for key in ('pre', 'gsr', 'mutate', 'ntype'):
+        for key in ('pre', 'gsr', 'mutate', 'ntype', 'sib'):
             if key in c:
                 yield {k: v for k, v in c.items() if k != key}
         if c.get('pre'):
